@@ -42,6 +42,13 @@ class C14(Prop):
         ] + super().corpus()
 
     def generate(self, rng, n, deep=False):
+        if deep or self.tier == "thorough":
+            # scale: the first majority only at a depth beyond a thousand positions (two voters with opposite orders)
+            for rule in ("fallback", "bucklin"):
+                m = rng.choice([2100, 2400])
+                alts = list(range(1, m + 1))
+                yield {"kind": "rule", "rule": rule, "type": "soc", "alts": alts, "nospec": True,
+                       "profile": [[[[a] for a in alts], 1], [[[a] for a in reversed(alts)], 1]]}
         for i in range(n):
             rule = "bucklin" if i % 2 else "fallback"
             kind = "soc" if rule == "bucklin" or rng.random() < 0.5 else "soi"
